@@ -32,7 +32,6 @@ defect region fails).
                                positions: different as soon as a (..)xn repeat interferes
   omega_split_fixed_repeat     `(v FIX)xn` whose members now differ: the FIX logic of the split is inverted
   omega_remove_counts_tokens   the same token / eta position mix-up in OmegaRecord.remove
-  omega_remove_glues_next_record  removing the last value of a DIAGONAL record drops the line break ending the record
 """
 import os
 import re
@@ -683,12 +682,6 @@ def _body_omega_remove(lay, mask):
         return None
     inds, kept, region, untouched = _remove_plan(nodes, len(old), mask)
     region = region.replace('remove_', 'omega_remove_')
-    if region == 'main' and inds and nodes[-1][2] not in untouched:
-        # the last value token goes: is there a line break between the last kept value and it?
-        last_kept = max(untouched)
-        following = min(ci for _, _, ci in nodes if ci > last_kept)
-        if '\n' not in ''.join(str(c) for c in rec.root.children[last_kept + 1:following]):
-            region = 'omega_remove_glues_next_record'
     if region != REGION:
         return None
     newrec = rec.remove([(j, 0) for j in inds])
